@@ -191,3 +191,17 @@ bytes base_file(const EncCase &e, bool toolbase)
     return bytes();
   return o.out;
 }
+
+FaultRun run_faulted(bool is_decrypt, const bytes &file, const bytes &key, const EncCase &e, long n)
+{
+  FaultRun fr;
+  wapi::PipeCfg pc = pcfg(e, wapi::SchedSpec());
+  pc.fail_new = n;
+  ChildResult r = run_in_child([&]() { return (is_decrypt ? wapi::decrypt(file, key, pc) : wapi::verify(file, key, pc, true)).ser(); }, 60);
+  fr.st = r.status;
+  if (r.status == CH_OK)
+    fr.o = wapi::OpOut::de(r.payload);
+  else
+    fr.detail = r.describe();
+  return fr;
+}
